@@ -14,14 +14,16 @@ import Paroxy.Proofs.FlatTweaks
 import Paroxy.Proofs.FlatAlias
 import Paroxy.Proofs.FlatBackport
 import Paroxy.Proofs.FlatNeg
+import Paroxy.Proofs.FlatEscape
+import Paroxy.Proofs.FlatCtx
 namespace Paroxy.Props.C15
 open Paroxy.Flat
 
 /-- What `flatten_ast` computes: the post-processing of the *pure* dump of the tree (after the
 on-the-fly reordering / renaming), hashes numbered by first occurrence from a fresh factory. -/
 theorem C15_flatten_eq (cfg : Cfg) (s : HashState) (t : Val) :
-    (flattenAst cfg s t).1 = postProcess (dumpP (hashFn (onTheFly cfg t)) [] [] (onTheFly cfg t)) := by
-  simp [flattenAst, dumpS_reset]
+    (flattenAst cfg s t).1 = postProcess (dumpP (hashFn (prep cfg t)) [] [] (prep cfg t)) := by
+  simp [flattenAst, flattenAstG, startState, dumpS_reset]
 
 /-- **C15 (pre-order, exactly once).** The dump of any tree is the concatenation, over the pre-order
 enumeration of the tree, of the lines of each entry — and the enumeration contains every node, list
@@ -75,6 +77,16 @@ theorem C15_path_nesting (v : Val) (k : Nat) (hk : k < 10) (p1 p2 : List Nat) (n
 
 example : posPath [0, 3, 1] = cs!"3-1-" ∧ posPath [0, 3, 12, 0] = cs!"3-12-0-" := by decide
 
+/-- Non-vacuity of the hypotheses of `C15_path_nesting`: in `Module(body=[Expr(value=Name)])` the `Expr`
+is at `[0, 1]`, the `Name` at `[0, 1, 0]`; the path of the first (`1-`) is a prefix of the path of the
+second (`1-0-`). -/
+example :
+    let t : Val := .node cs!"Module" false [] none
+      [(cs!"body", .list false [.node cs!"Expr" false [] (some 1)
+        [(cs!"value", .node cs!"Name" true cs!"Name(id='x')" (some 1) [])]])]
+    (t.at? [0, 1]).isSome = true ∧ (t.at? [0, 1, 0]).isSome = true ∧
+      posPath [0, 1] = cs!"1-" ∧ posPath [0, 1, 0] = cs!"1-0-" := by decide
+
 /-- The root itself (empty path) contains everything, and its shown path is empty. -/
 theorem C15_path_root (p : List Nat) : posPath [] <+: posPath p := by simp [posPath, encPath]
 
@@ -89,14 +101,53 @@ theorem C15_hash (t : Val) (p1 p2 : List Nat) {ty1 ty2 r1 r2 : Str} {ln1 ln2 : O
   obtain ⟨ns2, hn2⟩ : ∃ ns, At t p2 ns (.node ty2 true r2 ln2 fs2) := at_exists h2
   exact hashFn_eq_iff t (mem_exprReprs_of_at hn1 rfl) (mem_exprReprs_of_at hn2 rfl)
 
+/-- **C15 (hash, structural form — one direction).** In a tree whose expression nodes carry their own
+context-free dump as hash source (`reprsAreDumps`: `Type(field=value, …)` without `ctx` and without the
+optional fields that are `None` — checked by the driver on every real expression), two expression nodes
+that are **the same expression up to load/store context** (`sameUpToCtx`: same types, field names and
+terminal values once the `ctx` fields are removed) get the same `_hash`.
+The converse — different expressions get different hashes — needs the injectivity of Python's
+`repr`-based dump text and stays exercised (`c15.spec` numbers the hashes after a length-prefixed
+canonical form and compares). -/
+theorem C15_hash_structural (t : Val) (hd : reprsAreDumps t = true) (p1 p2 : List Nat)
+    {ty1 ty2 r1 r2 : Str} {ln1 ln2 : Option Nat} {fs1 fs2 : List (Str × Val)}
+    (h1 : t.at? p1 = some (.node ty1 true r1 ln1 fs1)) (h2 : t.at? p2 = some (.node ty2 true r2 ln2 fs2))
+    (hs : sameUpToCtx (.node ty1 true r1 ln1 fs1) (.node ty2 true r2 ln2 fs2) = true) :
+    hashFn t r1 = hashFn t r2 := by
+  obtain ⟨ns1, hn1⟩ := at_exists h1
+  obtain ⟨ns2, hn2⟩ := at_exists h2
+  have e1 := reprsAreDumps_of_at hn1 hd
+  have e2 := reprsAreDumps_of_at hn2 hd
+  simp only [reprsAreDumps, Bool.not_true, Bool.false_or, Bool.and_eq_true, beq_iff_eq] at e1 e2
+  rw [e1.1, e2.1, dumpNoCtx_of_sameUpToCtx hs]
+
+/-- Non-vacuity: `a[i]` stored and `a[i]` loaded are the same expression up to context, and the dump of
+the first is `Subscript(value=Name(id='a'), slice=Name(id='i'))`. -/
+example :
+    let sub (c : Str) : Val := .node cs!"Subscript" true [] (some 1)
+      [(cs!"value", .node cs!"Name" true [] (some 1) [(cs!"id", .scalar cs!"'a'" .str), (cs!"ctx", .node cs!"Load" false [] none [])]),
+       (cs!"slice", .node cs!"Name" true [] (some 1) [(cs!"id", .scalar cs!"'i'" .str), (cs!"ctx", .node cs!"Load" false [] none [])]),
+       (cs!"ctx", .node c false [] none [])]
+    sameUpToCtx (sub cs!"Store") (sub cs!"Load") = true ∧
+      dumpNoCtx (sub cs!"Store") = cs!"Subscript(value=Name(id='a'), slice=Name(id='i'))" := by decide
+
 /-- The numbers are 1, 2, 3, … in order of first occurrence: the first expression gets `0x0001`. -/
 example : hashFn (.node cs!"Name" true cs!"Name(id='a')" (some 1) []) cs!"Name(id='a')" = cs!"0x0001" := by
   decide
 
-/-- **C15 (stateless).** `flatten_ast` resets the factory first: its result does not depend on the
-state left by earlier flattenings. -/
+/-- **C15 (stateless).** Because `flatten_ast` first resets the factory (`startState true`), its result
+does not depend on the state left by earlier flattenings. -/
 theorem C15_stateless (cfg : Cfg) (s s' : HashState) (t : Val) :
-    (flattenAst cfg s t).1 = (flattenAst cfg s' t).1 := rfl
+    (flattenAst cfg s t).1 = (flattenAst cfg s' t).1 := by
+  simp [flattenAst, flattenAstG, startState]
+
+/-- The reset is what makes it so: without it (`doReset = false`) the dump of the same tree depends on
+the incoming state — here a factory that has already numbered one other expression. -/
+theorem C15_reset_needed :
+    ∃ (s : HashState) (t : Val),
+      (dumpS [] [] t (startState false s)).1 ≠ (dumpS [] [] t (startState false HashState.reset)).1 := by
+  refine ⟨HashState.reset.touch cs!"Name(id='b')", .node cs!"Name" true cs!"Name(id='a')" (some 1) [], ?_⟩
+  decide
 
 /-- **C15 (any sequence).** Flattening any sequence of trees in one process, from any initial
 state, gives for each tree the text of a single flattening from a fresh factory. -/
@@ -104,7 +155,9 @@ theorem C15_sequence (cfg : Cfg) (s : HashState) (ts : List Val) :
     (flattenSeq cfg s ts).1 = ts.map fun t => (flattenAst cfg HashState.reset t).1 := by
   induction ts generalizing s with
   | nil => rfl
-  | cons t ts ih => simp only [flattenSeq, List.map_cons, ih]; rfl
+  | cons t ts ih =>
+    simp only [flattenSeq, List.map_cons, ih]
+    simp [flattenAst, flattenAstG, startState]
 
 /-! ## "With the documented tweaks only": line-level passes are tree-level tweaks
 
@@ -219,9 +272,9 @@ theorem C15_tweaks_full (t0 : Val) (ty : Str) (e : Bool) (r : Str) (ln : Option 
 well-formed is the plain dump of the six tree-level tweaks of that form, hashes numbered by first
 occurrence in the untweaked tree. -/
 theorem C15_flatten_tweaked (cfg : Cfg) (s : HashState) (t : Val) (ty : Str) (e : Bool) (r : Str)
-    (ln : Option Nat) (fs : List (Str × Val)) (ht : onTheFly cfg t = .node ty e r ln fs)
-    (hwf : wfStages6 (onTheFly cfg t) = true) :
-    (flattenAst cfg s t).1 = dumpP (hashFn (onTheFly cfg t)) [] [] (stage6 (onTheFly cfg t)) := by
+    (ln : Option Nat) (fs : List (Str × Val)) (ht : prep cfg t = .node ty e r ln fs)
+    (hwf : wfStages6 (prep cfg t) = true) :
+    (flattenAst cfg s t).1 = dumpP (hashFn (prep cfg t)) [] [] (stage6 (prep cfg t)) := by
   rw [C15_flatten_eq, ht] at *
   exact C15_tweaks_full _ ty e r ln fs hwf
 
@@ -263,7 +316,23 @@ example : dumpP id [] [] (stage6 sampleNeg) =
      cs!"/body/1/value/_type=Num", cs!"/body/1/value/_hash=UnaryOp(op=USub(), operand=Constant(value=5))",
      cs!"/body/1/value/_pos=1:1-0-", cs!"/body/1/value/n=-5"] := by decide
 
-/-! ## The repaired findings (positive statements) and a witness of the recorded one -/
+/-! ## Escaped terminal values (fix b1d74a8; former findings F17 / F32) -/
+
+/-- The dump that escapes `_pos=` in its scalar case — what `flatten_node` does — is the plain dump of the
+tree whose terminal values are escaped (`prep` = on-the-fly tweaks, then `escapeTree`). -/
+theorem C15_escape_at_dump (h : Str → Str) (v : Val) (pre path : Str) :
+    dumpPE h pre path v = dumpP h pre path (escapeTree v) := dumpPE_eq h v pre path
+
+/-- No `_pos=` survives in an escaped value… -/
+theorem C15_escapePos_no_pos (r : Str) : hasInfix cs!"_pos=" (escapePos r) = false := escapePos_no_pos r
+
+/-- … hence the line of an escaped value is never taken for a position line (the clause of `wfAlias`
+about scalar lines holds whatever a string constant contains), as long as the *field name* does not end
+with `_pos`. -/
+theorem C15_escaped_value_not_poslike (pre r : Str) (hpre : '=' ∉ pre) (hsuf : ¬ cs!"_pos" <:+ pre) :
+    isPosLike (scalarLine pre (escapePos r)) = false := not_posLike_escaped r hpre hsuf
+
+/-! ## The repaired findings: regression instances (`example`s, not counted as obligations) -/
 
 def asyncDef : Val :=
   .node cs!"AsyncFunctionDef" false [] (some 1)
@@ -271,7 +340,7 @@ def asyncDef : Val :=
 
 /-- Former finding 9 (repaired by d0d94f6): the code as written moves the body of every definition
 last, `AsyncFunctionDef` included — it is the documented reordering. -/
-theorem C15_async_body_last :
+example :
     implCfg = specCfg ∧
       dumpP id [] [] (onTheFly implCfg asyncDef) =
         [cs!"/_type=AsyncFunctionDef", cs!"/_pos=1:", cs!"/name='f'", cs!"/decorator_list/_length=0",
@@ -280,13 +349,13 @@ theorem C15_async_body_last :
 
 /-- Former finding 11 (repaired by c370a5d): the repr-prefix test of `replace_one_constant` agrees
 with the real kind for bytes literals of both spellings (`b'…'` and `b"…"`). -/
-theorem C15_bytes_kind_agrees :
+example :
     (constantKindOfRepr cs!"b\"it's\"").1 = kindTypeName .bytes ∧
       (constantKindOfRepr cs!"b'ab'").1 = kindTypeName .bytes := by decide
 
 /-- Former findings 15a/15d (repaired by 83ae3f3): a value containing `/kind=` satisfies the clauses
 of `wfKinds` and its line is kept by the pass; only the `kind` attribute line goes. -/
-theorem C15_kind_in_value_kept :
+example :
     wfKinds (.scalar cs!"'a/kind=b'" .str) = true ∧
       suppressKinds [cs!"/body/1/value/_type=Constant", cs!"/body/1/value/value='a/kind=b'",
           cs!"/body/1/value/kind=None"] =
@@ -294,7 +363,7 @@ theorem C15_kind_in_value_kept :
 
 /-- Former finding 15c (repaired by 0ac09ad): quotes inside a bytes repr are left alone (the clause of
 `wfUnquote` holds for it), a `str` loses exactly its two delimiters. -/
-theorem C15_unquote_anchored :
+example :
     wfUnquote (.scalar cs!"b'=\"'" .bytes) = true ∧
       unquote [cs!"/body/1/value/s=b'=\"'", cs!"/body/1/value/s='a=\"b\"'"] =
         [cs!"/body/1/value/s=b'=\"'", cs!"/body/1/value/s=a=\"b\""] := by decide
